@@ -14,8 +14,8 @@ let parse_cfg (s : string) =
   let reps = List.init 3 (fun i ->
       fresh_rep (lv (g "lv").[i]) ((g "sl").[i] = '1') (lb <> "-" && int_of_string lb = i) (b "lr" && i = 2)) in
   let bo k = (try List.assoc k kv = "1" with Not_found -> false) in
-  (b "fw" || bo "inv", { c_rt = rt; c_stale = b "st"; c_read = b "rd"; c_has_labels = (lb <> "-"); c_leader_only = b "lo"; c_thr = b "thr";
-            c_short_to = b "to"; c_max_sleep = n_of_int (int_of_string (g "ms")); c_val = b "val"; c_reps = reps })
+  (bo "inv", { c_rt = rt; c_stale = b "st"; c_read = b "rd"; c_has_labels = (lb <> "-"); c_leader_only = b "lo"; c_thr = b "thr";
+            c_short_to = b "to"; c_max_sleep = n_of_int (int_of_string (g "ms")); c_val = b "val"; c_reps = reps; c_fw = b "fw" })
 
 let parse_sym (s : string) : outcome =
   let lv c = match c with 'u' -> Unreachable | 'k' -> Unknown | _ -> Reachable in
@@ -34,9 +34,13 @@ let kind_name k = match k with BoRPC -> "rpc" | BoRegionMiss -> "miss" | BoRegio
 let b01 b = if b then "1" else "0"
 (* ERearm is internal to the model (not observable): dropped from the compared trace *)
 let show_events evs =
+  let via = ref "" in
   let l = List.filter_map (fun e -> match e with
-      | EAtt (i, rr, st, rty) -> Some (Printf.sprintf "A%d:%s%s%s" (int_of_nat i) (b01 rr) (b01 st) (b01 rty))
+      | EAtt (i, rr, st, rty) ->
+          let v = !via in via := "";
+          Some (Printf.sprintf "A%d:%s%s%s%s" (int_of_nat i) (b01 rr) (b01 st) (b01 rty) v)
       | EBo (k, sl) -> Some (Printf.sprintf "B%s:%d" (kind_name k) (int_of_n sl))
+      | EProxy p -> via := "@" ^ string_of_int (int_of_nat p); None
       | ERearm _ -> None) evs in
   if l = [] then "-" else String.concat ";" l
 let show_result r = match r with
@@ -57,7 +61,7 @@ let () =
         bump ("oracle:" ^ (if orc = "pass" then "pass" else "fail"));
         let cmd = (try List.find (fun p -> String.length p > 4 && String.sub p 0 4 = "cmd=") (String.split_on_char ',' cfg) with Not_found -> "cmd=0") in
         if cmd <> "cmd=0" then bump ("cmdtype:" ^ cmd);
-        if fw then begin incr skipped; bump "cfg:forwarding-or-preinvalidated(oracles only)" end
+        if fw then begin incr skipped; bump "cfg:preinvalidated(oracles only)" end
         else begin
           let sc = List.map parse_sym (split_list script ',') in
           let rs = List.map (fun p -> match String.split_on_char ':' p with
